@@ -11,30 +11,33 @@ Open Scope Z_scope.
    `_compiled` memos on inner nodes and all — gives the result, the variables and the active
    module that parsing t under the active module and running the bare interpreter gives; and the
    state after h is the one the reference produces for h.  Holds because (i) the operands of
-   cached compiled code are re-checked at call time and (ii) the parse cache key contains the
-   module (both regenerated flags); it does not depend on whether assignments clear the compiled
-   cache.  Excluded (known finding C04-cached-module-switch): histories in which a text whose
-   parse switches the module is served from the parse cache (`no_cached_switch`). *)
+   cached compiled code are re-checked at call time (fix d5a263f), (ii) the parse cache key contains
+   the module and (iii) a text whose parse switches the module is never stored in the parse cache
+   (fix 012f393) — three regenerated flags; it does not depend on whether assignments clear the
+   compiled cache. *)
 Theorem C04_cache_transparent : forall clear_on_set parse s0 h t,
-  no_cached_switch compiled_args_rechecked clear_on_set parse_cache_key_has_module parse (fresh s0) (h ++ [t]) = true ->
-  let st := state_after compiled_args_rechecked clear_on_set parse_cache_key_has_module parse (fresh s0) h in
-  let r := run_cached compiled_args_rechecked clear_on_set parse_cache_key_has_module parse st t in
+  let st := state_after compiled_args_rechecked clear_on_set parse_cache_key_has_module parse parse_cache_skips_switching_texts (fresh s0) h in
+  let r := run_cached compiled_args_rechecked clear_on_set parse_cache_key_has_module parse parse_cache_skips_switching_texts st t in
   (fst r, (cur (snd r), vars (snd r))) = eval_ref parse (cur st, vars st) t
   /\ (cur st, vars st) = ref_after parse (0, s0) h.
 Proof.
   exact (eq_ind_r (fun f => forall clear_on_set parse s0 h t,
-            no_cached_switch f clear_on_set parse_cache_key_has_module parse (fresh s0) (h ++ [t]) = true ->
-            let st := state_after f clear_on_set parse_cache_key_has_module parse (fresh s0) h in
-            let r := run_cached f clear_on_set parse_cache_key_has_module parse st t in
+            let st := state_after f clear_on_set parse_cache_key_has_module parse parse_cache_skips_switching_texts (fresh s0) h in
+            let r := run_cached f clear_on_set parse_cache_key_has_module parse parse_cache_skips_switching_texts st t in
             (fst r, (cur (snd r), vars (snd r))) = eval_ref parse (cur st, vars st) t
             /\ (cur st, vars st) = ref_after parse (0, s0) h)
           (eq_ind_r (fun g => forall clear_on_set parse s0 h t,
-            no_cached_switch true clear_on_set g parse (fresh s0) (h ++ [t]) = true ->
-            let st := state_after true clear_on_set g parse (fresh s0) h in
-            let r := run_cached true clear_on_set g parse st t in
+            let st := state_after true clear_on_set g parse parse_cache_skips_switching_texts (fresh s0) h in
+            let r := run_cached true clear_on_set g parse parse_cache_skips_switching_texts st t in
             (fst r, (cur (snd r), vars (snd r))) = eval_ref parse (cur st, vars st) t
             /\ (cur st, vars st) = ref_after parse (0, s0) h)
-            cache_transparent (eq_refl : parse_cache_key_has_module = true))
+           (eq_ind_r (fun k => forall clear_on_set parse s0 h t,
+            let st := state_after true clear_on_set true parse k (fresh s0) h in
+            let r := run_cached true clear_on_set true parse k st t in
+            (fst r, (cur (snd r), vars (snd r))) = eval_ref parse (cur st, vars st) t
+            /\ (cur st, vars st) = ref_after parse (0, s0) h)
+            cache_transparent (eq_refl : parse_cache_skips_switching_texts = true))
+           (eq_refl : parse_cache_key_has_module = true))
           (eq_refl : compiled_args_rechecked = true)).
 Qed.
 Print Assumptions C04_cache_transparent.
@@ -50,15 +53,14 @@ Definition r15_parse (t : text) (m : module) : expr * module :=
 
 Theorem C04_cache_refuted_without_recheck :
   exists parse h t,
-    no_cached_switch false true true parse (fresh []) (h ++ [t]) = true /\
-    let st := state_after false true true parse (fresh []) h in
-    fst (run_cached false true true parse st t) <> fst (eval_ref parse (cur st, vars st) t).
-Proof. exists r15_parse, [1; 2; 3; 4], 3. split; [vm_compute; reflexivity|]. vm_compute. discriminate. Qed.
+    let st := state_after false true true parse true (fresh []) h in
+    fst (run_cached false true true parse true st t) <> fst (eval_ref parse (cur st, vars st) t).
+Proof. exists r15_parse, [1; 2; 3; 4], 3. vm_compute. discriminate. Qed.
 
 Example C04_cache_example :
-  let st := state_after true true true r15_parse (fresh []) [1; 2; 3; 4] in
-  fst (run_cached true true true r15_parse st 3) = Err /\
-  fst (run_cached true true true r15_parse (state_after true true true r15_parse (fresh []) [1; 2; 3]) 3) = Ok (VInt 6) /\
+  let st := state_after true true true r15_parse true (fresh []) [1; 2; 3; 4] in
+  fst (run_cached true true true r15_parse true st 3) = Err /\
+  fst (run_cached true true true r15_parse true (state_after true true true r15_parse true (fresh []) [1; 2; 3]) 3) = Ok (VInt 6) /\
   memo st <> [].
 Proof. vm_compute. repeat split; discriminate. Qed.
 
@@ -74,26 +76,26 @@ Definition mod_parse (t : text) (m : module) : expr * module :=
    then t::1 at global level re-uses the tree parsed inside the module and assigns the module's t *)
 Theorem C04_cache_refuted_with_text_only_key :
   exists parse h t,
-    no_cached_switch true true false parse (fresh []) (h ++ [t]) = true /\
-    let st := state_after true true false parse (fresh []) h in
-    let r := run_cached true true false parse st t in
+    let st := state_after true true false parse true (fresh []) h in
+    let r := run_cached true true false parse true st t in
     (fst r, (cur (snd r), vars (snd r))) <> eval_ref parse (cur st, vars st) t.
-Proof. exists mod_parse, [1; 2; 3], 2. split; [vm_compute; reflexivity|]. vm_compute. discriminate. Qed.
+Proof. exists mod_parse, [1; 2; 3], 2. vm_compute. discriminate. Qed.
 
-(* known finding C04-cached-module-switch: even with the (text, module) key, a module-switching
-   text served from the cache does not switch the parser's module: .module(:m); .module(0); .module(:m) *)
+(* finding C04-cached-module-switch (repaired by 012f393): if switching texts are stored in the parse
+   cache, a module-switching text served from it does not switch the parser's module:
+   .module(:m); .module(0); .module(:m) *)
 Theorem C04_cached_module_switch_refuted :
   exists parse h t,
-    let st := state_after true true true parse (fresh []) h in
-    let r := run_cached true true true parse st t in
-    cached_switch true parse st t = true /\
+    let st := state_after true true true parse false (fresh []) h in
+    let r := run_cached true true true parse false st t in
     (fst r, (cur (snd r), vars (snd r))) <> eval_ref parse (cur st, vars st) t.
-Proof. exists mod_parse, [1; 3], 1. split; [vm_compute; reflexivity|]. vm_compute. discriminate. Qed.
+Proof. exists mod_parse, [1; 3], 1. vm_compute. discriminate. Qed.
 
 Example C04_modules_example :
-  no_cached_switch true true true mod_parse (fresh []) [1; 2; 3; 2] = true /\
-  vars (state_after true true true mod_parse (fresh []) [1; 2; 3; 2]) = [(20, VInt 1); (10, VInt 1)].
-Proof. vm_compute. split; reflexivity. Qed.
+  vars (state_after true true true mod_parse true (fresh []) [1; 2; 3; 2; 1; 2]) = [(20, VInt 1); (10, VInt 1)] /\
+  cur (state_after true true true mod_parse true (fresh []) [1; 2; 3; 2; 1]) = 7 /\
+  pcache (state_after true true true mod_parse true (fresh []) [1; 3; 1]) = [].
+Proof. vm_compute. repeat split; reflexivity. Qed.
 
 (* T4.views — arrays are buffers, drop / take / reverse return views of the operand's buffer and
    amend clones first (regenerated flag): for every statement sequence, a variable that is not
